@@ -254,7 +254,11 @@ def _check_graph(case, ctx):
     fixed = GC.expected_fixed(case, ff)
     sysf = RG.system(g_num)
     free = RG.free_indices(g_num, fixed)
-    if len(free):
+    if not r_ex.converged:
+        # un-damped Gauss-Newton did not converge even with exact Jacobians (1-D range/distance constraints can make it
+        # cycle); the property compares the numeric graph with the exact one, it does not promise convergence there
+        ctx.event("exact-twin-did-not-converge:stationarity-skipped")
+    elif len(free):
         Hff, bf = sysf["H"][np.ix_(free, free)], sysf["b"][free]
         if np.isfinite(np.linalg.cond(Hff)) and np.linalg.cond(Hff) < 1e10:
             lam2 = float(bf @ np.linalg.solve(Hff, bf))
